@@ -108,9 +108,9 @@ func hcDrawPlan(rt *rapid.T, focus string) *hcPlan {
 	postPct, maxBody := 30, 4000
 	switch focus {
 	case "C09":
-		p.initIW = vs.Pick(c, -1, 0, 1, 100, 5000, 65535, 1<<20)
+		p.initIW = vs.Pick(c, -1, 0, 1, 100, 5000, 65535, 1<<20, 0, 100)
 		p.initMF = vs.Pick(c, -1, 16384, 16385, 100000, 1<<24-1)
-		p.initWU = vs.Pick(c, 0, 0, 1, 70000, 1<<20)
+		p.initWU = vs.Pick(c, 0, 0, 1, 70000, 1<<20, 1<<20)
 		nreq = vs.Range(c, 1, 8)
 		postPct, maxBody = 95, 262144
 	case "C10":
@@ -216,7 +216,7 @@ func hcDrawPlan(rt *rapid.T, focus string) *hcPlan {
 			op.code = ErrCode(vs.Pick(c, 8, 0, 2, 7, 1))
 		case "wu":
 			op.n = vs.Pick(c, 1, 2, 100, 4096, 16384, 65535, 100000, 1<<20)
-			op.connLvl = vs.Pct(c, 40)
+			op.connLvl = vs.Pct(c, 25)
 		case "settings":
 			if focus == "C17" || focus == "C18" {
 				op.mcs = vs.Pick(c, 0, 1, 2, 3, 5)
@@ -352,6 +352,14 @@ func (b *hcBody) grant() {
 	b.mu.Unlock()
 }
 
+// state returns the bytes handed to the Transport so far and whether the
+// Transport is inside Read right now.
+func (b *hcBody) state() (consumed int, inRead bool) {
+	b.mu.Lock()
+	defer b.mu.Unlock()
+	return b.consumed, b.waiting
+}
+
 func (b *hcBody) consumedBytes() int {
 	b.mu.Lock()
 	defer b.mu.Unlock()
@@ -420,6 +428,8 @@ type hcStream struct {
 	overSent    bool
 	overEndOff  int64
 	acceptedMax int64
+
+	srvWUSeen int // server WINDOW_UPDATEs for this stream already seen delivered (probe bookkeeping)
 }
 
 type hcPing struct {
@@ -469,6 +479,8 @@ type hcConn struct {
 	eofSeen     bool
 	anyOver     bool
 	healedA     bool
+
+	prevBlocked []*hcStream // streams whose body was blocked on flow control at the previous quiescent point
 }
 
 type hcReq struct {
@@ -1141,6 +1153,9 @@ func (r *hcRun) check() *vs.Violation {
 		if cn.flowErr && !cn.anyOver && (r.p.focus == "C11" || r.p.focus == "C10") {
 			return vs.Violf("C11", "within_window_rejected", "cli:within_window_rejected", "conn %d: the client reported FLOW_CONTROL_ERROR although the server stayed within the advertised windows", cn.idx)
 		}
+		if v := r.checkBlockedBodies(cn, dBA); v != nil {
+			return v
+		}
 		// C17 white-box: requests parked waiting for a stream slot
 		if cn.cc != nil && r.p.focus == "C17" {
 			cc := cn.cc
@@ -1158,6 +1173,84 @@ func (r *hcRun) check() *vs.Violation {
 				}
 			}
 		}
+	}
+	return nil
+}
+
+// checkBlockedBodies is the per-step C09 liveness oracle ("a blocked request
+// body resumes when the server extends the window"). At a quiescent point a
+// correct Transport that holds body bytes it has not written yet (the body
+// reader has handed over more than the DATA payload seen on the wire, and the
+// Transport is not inside Read) is parked in awaitFlowControl, which it only
+// does while the usable send window (min of stream and connection window) is
+// <= 0; every change of a window wakes all waiters. So: unsent bytes + not in
+// Read + stream and connection live + cs.flow.available() > 0 (white-box, under
+// cc.mu) = a waiter that was not woken. A window that is negative or zero
+// (SETTINGS shrink, exhausted connection window) gives available() <= 0 and is
+// a legitimately blocked body; those are only counted (for the probe).
+func (r *hcRun) checkBlockedBodies(cn *hcConn, dBA int64) *vs.Violation {
+	prev := cn.prevBlocked
+	cn.prevBlocked = nil
+	// probe: several bodies blocked at the previous quiescent point and now a
+	// WINDOW_UPDATE for one of them has been delivered
+	for _, st := range cn.order {
+		for st.srvWUSeen < len(st.srvWUs) && st.srvWUs[st.srvWUSeen].endOff <= dBA {
+			st.srvWUSeen++
+			if len(prev) >= 2 {
+				for i, b := range prev {
+					if b == st {
+						vs.G.Inc("probe.stream_wu_delivered_while_several_bodies_blocked")
+						if i > 0 {
+							vs.G.Inc("probe.stream_wu_for_non_first_blocked_body")
+						}
+					}
+				}
+			}
+		}
+	}
+	if cn.cc == nil || !cn.writable() || cn.cliClosed || len(cn.goaways) > 0 || cn.flowErr {
+		return nil
+	}
+	cc := cn.cc
+	cc.mu.Lock()
+	defer cc.mu.Unlock()
+	if cc.closed || cc.closing || cc.goAway != nil {
+		return nil
+	}
+	for _, st := range cn.order {
+		if st.req < 0 || st.cliEnd || st.cliRst || st.srvRst || st.srvEnd || st.refused || st.overSent {
+			continue
+		}
+		rq := r.reqs[st.req]
+		if rq.cancelled || (rq.returned && rq.err != nil) {
+			continue
+		}
+		cs := cc.streams[st.id]
+		if cs == nil || cs.reqBodyClosed != nil || cs.readAborted || cs.sentEndStream {
+			continue
+		}
+		select {
+		case <-cs.abort:
+			continue
+		default:
+		}
+		b, ok := cs.reqBody.(*hcBody)
+		if !ok {
+			continue
+		}
+		consumed, inRead := b.state()
+		if inRead || int64(consumed) <= st.cliData {
+			continue
+		}
+		avail := cs.flow.available()
+		if avail <= 0 {
+			cn.prevBlocked = append(cn.prevBlocked, st)
+			continue
+		}
+		return vs.Violf("C09", "blocked_with_window", "cli:body_blocked_with_window", "conn %d stream %d (request %d): at a quiescent point the transport holds %d request-body bytes it has not written (reader handed over %d, %d on the wire), it is not reading the body, the stream and the connection are live, and the usable send window is %d (stream %d, connection %d): a body write blocked on flow control was not woken when the window was extended", cn.idx, st.id, st.req, int64(consumed)-st.cliData, consumed, st.cliData, avail, cs.flow.n, cc.flow.n)
+	}
+	if len(cn.prevBlocked) >= 2 {
+		vs.G.Inc("probe.several_bodies_blocked_on_flow_control")
 	}
 	return nil
 }
@@ -1407,6 +1500,21 @@ func (r *hcRun) doOp(op hcOp) {
 		}
 		c := r.opStreams(op)
 		st := c[op.sel%len(c)]
+		if r.p.focus == "C09" {
+			// When the client has used up everything granted on two or more
+			// streams (as far as the wire shows), usually extend the window of a
+			// single one of them that is not the first: only that body may resume.
+			var ex []*hcStream
+			for _, o := range c {
+				if !o.cliEnd && !o.cliRst && o.cliFlow >= o.cn.cur().iw+o.srvWUSum {
+					ex = append(ex, o)
+				}
+			}
+			if len(ex) >= 2 && op.sel%4 != 0 {
+				st = ex[1+(op.sel/4)%(len(ex)-1)]
+				vs.G.Inc("probe.wu_aimed_at_non_first_exhausted_stream")
+			}
+		}
 		st.cn.writeWU(st, int64(op.n))
 		r.tr.Ev("  srv WINDOW_UPDATE c%d req=%d.%d inc=%d", st.cn.idx, st.req, st.attempt, op.n)
 	case "settings":
@@ -2093,7 +2201,7 @@ func (cn *hcConn) eofDelivered() bool {
 func hcTest(t *testing.T, focus string) {
 	log.SetOutput(io.Discard)
 	vs.Check(t, func(rt *rapid.T) {
-		for _, p := range []string{"probe.stream_window_exhausted", "probe.conn_window_exhausted", "probe.initial_window_shrunk"} {
+		for _, p := range []string{"probe.stream_window_exhausted", "probe.conn_window_exhausted", "probe.initial_window_shrunk", "probe.several_bodies_blocked_on_flow_control", "probe.stream_wu_delivered_while_several_bodies_blocked", "probe.stream_wu_for_non_first_blocked_body"} {
 			if focus == "C09" {
 				vs.G.Add(p, 0)
 			}
